@@ -251,7 +251,7 @@ pub fn run_scenario(sc: &Scenario, out: &mut CaseOut) -> (bool, bool, bool) {
                 if st == PS::Passive {
                     // needs an explanation: a master with >= 2 receptions in the window or an own-instance Announce
                     let explained = sc.masters.iter().enumerate().any(|(mi, m)| {
-                        let w = if m.id.clock == OWN { interval + 2 * bmca_period } else { win };
+                        let w = if m.id.clock == OWN { 2 * interval + 2 * bmca_period } else { win };
                         let need = if m.id.clock == OWN { 1 } else { 2 };
                         (m.id.clock == OWN && m.id.port < me.port && count_in(mi, w) >= need) || (eligible(m) && count_in(mi, w) >= need)
                     });
